@@ -1,7 +1,7 @@
 (** C07 — Any string is expressible in expression syntax; bad expressions fail
     cleanly. Statements only; proofs are in Proofs/Unquote.v, Proofs/Tok.v,
     Proofs/FilterParse.v, Proofs/ProjParse.v, Proofs/TokStream.v,
-    Proofs/FilterReject.v, Proofs/ProjReject.v.
+    Proofs/FilterReject.v, Proofs/ProjReject.v, Proofs/ReDelim.v.
 
     [is_space] stands for unicode.IsSpace and [re_ok] for "regexp.Compile
     succeeds"; the theorems hold for every such pair of functions, the
@@ -11,7 +11,7 @@
     0x20..0x7e). *)
 From Perf Require Import Base.Bytes Base.Rune Model.Unquote Model.Tok Model.FilterAst
   Model.FilterParse Model.ProjParse Proofs.Unquote Proofs.Tok Proofs.FilterParse Proofs.ProjParse
-  Proofs.TokStream Proofs.FilterReject Proofs.ProjReject.
+  Proofs.TokStream Proofs.FilterReject Proofs.ProjReject Proofs.ReDelim.
 
 (** the model of strconv.Unquote undoes the canonical quoting of any byte string *)
 Theorem C07_unquote_cquote : forall s, unquote (cquote s) = Some s.
@@ -298,6 +298,73 @@ Example C07_unterminated_regexp_example :
   /\ filter_tokens sp re (bs "a:/(/ x") = LexErr ENoCloseSlash 2
   /\ parse_filter sp re (bs "a:/(/ x") = Err 2
   /\ parse_filter sp re (bs "/b:c") = Ok (FMatch (bs "/b") (MLit (bs "c")) 0).
+Proof. cbv zeta. repeat split; vm_compute; reflexivity. Qed.
+
+(** ** where a regexp ends.  [closes s i] (Proofs/ReDelim.v): position [i] of
+    the text after the opening slash holds a slash, and the prefix before it
+    leaves the scanner neutral -- no open [...] , no open (...) , no pending
+    backslash ([re_state], a left fold of the one-byte step [re_step]).  The
+    delimiter is the FIRST closing slash; there is none iff the regexp is
+    unterminated.  A backslash hides exactly one byte, whatever it is: there
+    is no literal-section mode for backslash-Q ... backslash-E. *)
+Theorem C07_regexp_delimiter_is_first_closing_slash :
+  forall s i,
+  re_scan s 0 0 false = Some i <->
+  closes s i = true /\ forall j, j < i -> closes s j = false.
+Proof. exact re_scan_first_closing. Qed.
+Print Assumptions C07_regexp_delimiter_is_first_closing_slash.
+
+Theorem C07_regexp_unterminated_iff_no_closing_slash :
+  forall s, re_scan s 0 0 false = None <-> forall j, closes s j = false.
+Proof. exact re_scan_none_iff. Qed.
+Print Assumptions C07_regexp_unterminated_iff_no_closing_slash.
+
+(** the regexp token ends exactly there: the token text is the text before
+    the delimiter and the tokenizer continues right after it (when that text
+    compiles and is followed by the end, a space or an operator start) *)
+Theorem C07_regexp_token_ends_at_delimiter :
+  forall is_space re_ok n0 c s e i,
+  re_scan s 0 0 false = Some i -> re_ok (firstn i s) = true ->
+  follow_ok is_space (skipn (S i) s) = true ->
+  regexp_tok is_space re_ok n0 (c :: s) e =
+  (mkTok KRegexp (off_of n0 (c :: s)) (firstn i s), skipn (S i) s, c :: s, e).
+Proof. exact regexp_tok_at_delim. Qed.
+Print Assumptions C07_regexp_token_ends_at_delimiter.
+
+(** else an error: at the opening slash when the text before the delimiter
+    does not compile, right after the delimiter when something is glued to it *)
+Theorem C07_regexp_token_bad_regexp :
+  forall is_space re_ok n0 c s e i,
+  re_scan s 0 0 false = Some i -> re_ok (firstn i s) = false ->
+  regexp_tok is_space re_ok n0 (c :: s) e = tok_error n0 (c :: s) e.
+Proof. exact regexp_tok_bad_regexp. Qed.
+Print Assumptions C07_regexp_token_bad_regexp.
+
+Theorem C07_regexp_token_bad_follower :
+  forall is_space re_ok n0 c s e i,
+  re_scan s 0 0 false = Some i -> re_ok (firstn i s) = true ->
+  follow_ok is_space (skipn (S i) s) = false ->
+  regexp_tok is_space re_ok n0 (c :: s) e = tok_error n0 (skipn (S i) s) e.
+Proof. exact regexp_tok_bad_follower. Qed.
+Print Assumptions C07_regexp_token_bad_follower.
+
+(** literal sections: two of them and the closing slash after them; a stray
+    backslash-E first; a backslash-Q never closed; a slash INSIDE a section
+    closes the regexp (offset 3 of \Qa/b\E/), one inside a class does not; the
+    filter k:/\Qa\E\Qb\E/ is the regexp match, k:/\Qa/b\E/ is refused right
+    after the first slash following a (offset 7) *)
+Example C07_regexp_quote_sections_example :
+  let sp := go_is_space in let re := fun _ : bytes => true in
+  re_scan (bs "\Qa\E\Qb\E/") 0 0 false = Some 10
+  /\ re_scan (bs "\E\Qa\E/") 0 0 false = Some 7
+  /\ re_scan (bs "\Qa/") 0 0 false = Some 3
+  /\ re_scan (bs "\Qa/b\E/") 0 0 false = Some 3
+  /\ re_scan (bs "\Qa\E[/]\Qb\E/") 0 0 false = Some 13
+  /\ re_scan (bs "\Qa\E\Qb\E") 0 0 false = None
+  /\ parse_filter sp re (bs "k:/\Qa\E\Qb\E/") = Ok (FMatch (bs "k") (MRe (bs "\Qa\E\Qb\E")) 0)
+  /\ parse_filter sp re (bs "k:/\Qa/b\E/") = Err 7
+  /\ parse_filter sp re (bs "k:(x OR /\Qa\E\Qb\E/)")
+     = Ok (FOr [FMatch (bs "k") (MLit (bs "x")) 0; FMatch (bs "k") (MRe (bs "\Qa\E\Qb\E")) 0]).
 Proof. cbv zeta. repeat split; vm_compute; reflexivity. Qed.
 
 (** ** rejects_missing_colon_or_value.
